@@ -177,6 +177,32 @@ fn import_soup(c: &mut Choices) -> String {
 
 /// Append a multi-byte letter to every generated name (v1, x2, m3, f0, R1, E2, V0x1, K3, p0, ...)
 /// so that every location the compiler cites starts or ends next to a multi-byte character.
+/// put a blank, a line break, a tab or a comment in front of about a third of the punctuation
+/// characters (positions picked by a generator seeded from the choice stream)
+fn respace(src: &str, seed: u16) -> String {
+    let mut x = (seed as u32).wrapping_mul(2654435761).wrapping_add(12345) | 1;
+    let mut next = move || {
+        x ^= x << 13;
+        x ^= x >> 17;
+        x ^= x << 5;
+        x
+    };
+    let mut out = String::with_capacity(src.len() + src.len() / 4);
+    for ch in src.chars() {
+        if "?.,;:()[]{}".contains(ch) && next() % 3 == 0 {
+            out.push_str(match next() % 5 {
+                0 => " ",
+                1 => "\n",
+                2 => "\t",
+                3 => " // c\n",
+                _ => "  ",
+            });
+        }
+        out.push(ch);
+    }
+    out
+}
+
 fn unicodeify(src: &str) -> String {
     let mut out = String::with_capacity(src.len() + 64);
     let cs: Vec<char> = src.chars().collect();
@@ -530,6 +556,9 @@ impl W {
             };
             // generated names get a multi-byte tail in four cases out of ten
             let text = if uni && kind >= 3 { unicodeify(&text) } else { text };
+            // white space, line breaks and comments in front of punctuation (postfix `?`, `.`,
+            // brackets, separators) in one case out of four
+            let text = if kind >= 3 && c.chance(64) { respace(&text, c.u16()) } else { text };
             let name = if fi == 0 { "pkg".to_string() } else { format!("m{fi}") };
             files.push((name, text));
         }
